@@ -1,14 +1,66 @@
-"""C04  Trusted markup is emitted verbatim and escaping happens exactly once."""
+"""C04  Trusted markup is emitted verbatim and escaping happens exactly once.
+
+Every public entry point / keyword argument through which the behaviour the statement describes
+(HTML() / _repr_html_() / script-style text emitted byte for byte, as a child and as an attribute value;
+plain text escaped exactly once; + / += / reflected + of HTML and str) can be reached, and where this
+file exercises it ("programs" = the API-program stream of api_programs()):
+
+  the concatenation algebra
+    HTML.__add__ / HTML.__radd__ / += / operator.add, str / HTML / str-subclass / HTML-subclass / foreign
+    operands, any grouping                                   differential (model) + chains of 7..300 operands, operands
+                                                             of >= 300 / 5000 / 70000 characters; sums as children and
+                                                             attribute values inside programs ('E' leaves)
+  markup of a tree
+    Tag.get_html_string(indent, eol)                         differential (model; indent 0..3, eol \n \r\n '' ' '), wide / deep /
+                                                             many-attribute / long-string trees; programs (indent 0..5, odd eol)
+    TagList.get_html_string(indent, eol, add_ws=)            differential (model), programs (add_ws False and True)
+    Tag.tagify() / TagList.tagify() + get_html_string        programs
+    Tag.render()['html'], TagList.render()['html']           programs
+    str() / repr() / _repr_html_() of Tag and TagList        programs
+    htmltools.html_dependency_render_mode = 'json' + str()   programs (markup part), and the whole text fed into
+    HTMLTextDocument(text, deps=, deps_replace_pattern=<with regex metacharacters>).render(lib_prefix=, include_version=)
+                                                             programs
+  documents
+    HTMLDocument(*content, lang= / class_= / style= / data_x= ... plain and HTML() values)
+        .render(lib_prefix='lib' | None | 'a/b', include_version=True | False)      programs
+    HTMLDocument.append(); copy.copy(document)               programs
+    content that is a lone <html> tag (own <head>/<body>, own class / style colliding with the document's), a
+    lone <body> tag; head_content(...) and dependencies with head= markup anywhere in the content      programs
+    HTMLDocument.save_html(file, libdir='lib' | None | nested, include_version=), Tag.save_html(), TagList.save_html()
+                                                             programs (the file on disk is read back)
+  ways of putting a child / an attribute value into a tree
+    Tag(...) / tags.<name>(...) / htmltools.<name>(...) (top-level re-exports); nested lists / tuples / TagLists
+    (nesting depth up to 70); Tag.append / insert / extend; children.append / children += ; TagList + / reflected + /
+    += / append / insert / extend; `with tag:` + sys.displayhook (wrap_displayhook_handler), nested with-blocks;
+    objects with tagify(), objects with tagify() AND _repr_html_(); JSX components as siblings;
+    attribute dicts, several dicts for one name (merged values), keyword arguments, attrs[k] = v, attrs.update,
+    another tag's .attrs passed as attribute dict, consolidate_attrs(...) -> Tag(name, attrs, *children),
+    Tag.add_class(v, prepend=) / Tag.add_style(v, prepend=) and those followed by consolidate_attrs       programs
+    (Tag.remove_class is NOT exercised on HTML() class values: it rebuilds the value from its tokens as a plain str,
+    Tag('div', class_=HTML('a&b c')).remove_class('c') renders class="a&amp;b" -- reported, same family as the known
+    finding C16-html-class-merge; the class-list operations are C16's subject)
+  copies and shared objects
+    copy.copy / copy.deepcopy / tagify() of the tree before rendering; a tag that was used as a context manager and is
+    then copied / compared (==, as an operation only) / rendered; one object placed in two parents; every
+    caller-supplied HTML() / self-rendering object checked unmodified afterwards; a second identically built
+    object must render like the first                        programs
+"""
 from __future__ import annotations
 
+import copy as _copy
 import operator
+import os
+import random
+import re
+import sys
+import tempfile
 
-from ..common import Ctx, S, unS, differential, run_model
+from ..common import Ctx, S, unS, differential, run_model, canon
 from .. import trees
 from ..trees import build, to_sx, safe_call, res_decode, ReprObj
 
 import htmltools
-from htmltools import HTML, Tag, TagList
+from htmltools import HTML, HTMLDocument, HTMLTextDocument, Tag, TagList
 
 SPEC_TEXT = {"&": "&amp;", "<": "&lt;", ">": "&gt;"}
 
@@ -26,6 +78,23 @@ class Other:
         return self.s
 
 
+# sizes just below, at and above the powers of two from 8 to 256, and one around 300
+SIZES = [7, 8, 9, 15, 16, 17, 31, 32, 33, 63, 64, 65, 127, 128, 129, 255, 256, 257, 300]
+DEPTHS = [7, 8, 9, 15, 16, 17, 31, 32, 33, 63, 64, 65, 70]
+SPICE = ['<b>&amp;"q"</b>', "a<b&c>d", "&lt;&", "</script>'x'", "\"&'<>\n\r;", "&&amp;amp;<"]
+LENGTHS = [300, 5000, 70000]
+
+
+def tail_string(n: int, spice: str) -> str:
+    """>= n characters; the interesting content sits at the very end and (for strings longer than 64 KiB)
+    across the 64 KiB seam -- never within the first n characters' beginning"""
+    block = "plain words without any markup; "
+    s = (block * (n // len(block) + 1))[:n]
+    if n > 65536:
+        s = s[:65533] + spice + s[65533 + len(spice):]
+    return s + spice
+
+
 def rand_expr(rng, depth, need_valid=True):
     if depth <= 0 or rng.random() < 0.3:
         k = rng.choice([0, 0, 1, 1, 2] if not need_valid else [0, 0, 1, 1])
@@ -33,12 +102,39 @@ def rand_expr(rng, depth, need_valid=True):
     return [1, rand_expr(rng, depth - 1, need_valid), rand_expr(rng, depth - 1, need_valid)]
 
 
+def chain_expr(leaves: list, shape: int):
+    """a + expression over the given leaves: 0 left-nested ((a+b)+c)..., 1 right-nested, 2 balanced"""
+    if len(leaves) == 1:
+        return leaves[0]
+    if shape == 0:
+        e = leaves[0]
+        for l in leaves[1:]:
+            e = [1, e, l]
+        return e
+    if shape == 1:
+        e = leaves[-1]
+        for l in reversed(leaves[:-1]):
+            e = [1, l, e]
+        return e
+    m = len(leaves) // 2
+    return [1, chain_expr(leaves[:m], 2), chain_expr(leaves[m:], 2)]
+
+
 def expr_sx(e):
     return [0, e[1], S(e[2])] if e[0] == 0 else [1, expr_sx(e[1]), expr_sx(e[2])]
 
 
 def expr_leaves(e):
-    return [e] if e[0] == 0 else expr_leaves(e[1]) + expr_leaves(e[2])
+    # iterative: chains of several hundred operands are as deep as they are long
+    out, stack = [], [e]
+    while stack:
+        x = stack.pop()
+        if x[0] == 0:
+            out.append(x)
+        else:
+            stack.append(x[2])
+            stack.append(x[1])
+    return out
 
 
 def eval_py(e, rng_ops, leaves_out=None):
@@ -63,17 +159,85 @@ def eval_py(e, rng_ops, leaves_out=None):
 
 
 def count_ops(e):
-    return 0 if e[0] == 0 else 1 + count_ops(e[1]) + count_ops(e[2])
+    return len(expr_leaves(e)) - 1
+
+
+def sized_exprs(rng) -> list:
+    """chains of 7..300 operands in the three groupings, the interesting operands LAST (and first), and
+    operands of >= 300 / 5000 / 70000 characters with their metacharacters at the tail"""
+    out = []
+    for j, n in enumerate(SIZES):
+        for shape in ([j % 3] if n not in (64, 256, 300) else [0, 1, 2]):
+            lv = [[0, 1 if (i * 7 + j) % 3 == 0 else 0, "w%d " % i] for i in range(n)]
+            # make sure both kinds occur, and that the last two operands are a plain and a trusted one with metacharacters
+            lv[0] = [0, 1, "<i>"]
+            lv[-2] = [0, j % 2, rng.choice(SPICE)]
+            lv[-1] = [0, 1 - j % 2, rng.choice(SPICE)]
+            e = chain_expr(lv, shape)
+            out.append((e, [rng.choice([0, 1, 2]) for _ in range(n - 1)]))
+    for n in LENGTHS:
+        for kind in (0, 1):
+            big = [0, kind, tail_string(n, rng.choice(SPICE))]
+            small = [0, 1 - kind, rng.choice(SPICE)]
+            for e in ([1, big, small], [1, small, big], [1, [1, small, big], [0, 0, "<t&"]]):
+                out.append((e, [rng.choice([0, 1, 2]) for _ in range(count_ops(e))]))
+    return out
+
+
+def sized_trees(rng) -> list:
+    """descriptions (trees.py format) that are wide / deep / have many attributes / hold long strings, the trusted
+    content with metacharacters in the LAST child / attribute / at the bottom / in the tail"""
+    out = []
+    for j, n in enumerate(SIZES):
+        sp = rng.choice(SPICE)
+        last = [("H", sp), ("R", sp), ("T", sp)][j % 3]
+        # children of mixed kinds
+        kids = [[("T", "t%d<" % i), ("H", "<u>%d</u>" % i), ("R", "r&%d" % i), ("M", None),
+                 ("G", "span", False, [], [("H", "&%d" % i)])][(i + j) % 5] for i in range(n - 1)] + [last]
+        out.append(("G", ["div", "span", "p"][j % 3], j % 2 == 0, [], kids))
+        # siblings of one kind (all HTML / all self-rendering / all text inside script or style)
+        one = [("H", "R", "T")[j % 3]] * (n - 1)
+        name = ["div", "span", "script", "style"][j % 4] if j % 3 != 2 else ["script", "style"][j % 2]
+        out.append(("G", name, j % 2 == 1, [], [(k, "<%d&>" % i) for i, k in enumerate(one)] + [(one[0], sp)]))
+        # attributes: the trusted value is the last one
+        attrs = [("data-a%d" % i, ("H" if (i + j) % 4 == 0 else "S", "v<%d>&" % i)) for i in range(n - 1)] + [("data-last", ("H", sp))]
+        out.append(("G", "div", True, attrs, [("T", "x")]))
+    for j, n in enumerate(DEPTHS):
+        sp = rng.choice(SPICE)
+        d = [("H", sp), ("R", sp), ("G", "script", True, [], [("T", sp), ("T", sp)]), ("G", "i", False, [("title", ("H", sp))], [])][j % 4]
+        for i in range(n):
+            name, ws = [("div", True), ("span", False), ("section", True), ("b", False)][(i + j) % 4]
+            d = ("G", name, ws, [], [d] if (i + j) % 3 else [("T", "&"), d, ("H", "<hr>")])
+        out.append(d)
+    for n in LENGTHS:
+        for j, sp in enumerate(SPICE[:3]):
+            s = tail_string(n, sp)
+            out.append(("G", "div", True, [], [("T", "a<"), [("H", s), ("R", s), ("T", s)][j], ("M", None)]))
+            if j == 0:
+                out.append(("G", "style", True, [], [("T", s), ("H", "<&>")]))
+                out.append(("G", "script", False, [], [("T", s)]))
+                out.append(("G", "a", False, [("href", ("S", "u&v")), ("title", ("H", s))], [("H", sp)]))
+    return out
 
 
 def run(ctx: Ctx) -> None:
     rng = ctx.rng
     ctx.rule = ("(1) random + expressions (depth <= 5) over str / HTML() / other objects with metacharacter-heavy "
                 "operands, evaluated with real +, operator.add and +=, rendered as only child, among siblings and "
-                "inside script; (2) random trees with HTML(), _repr_html_ objects and script/style text in every child "
-                "position and HTML() attribute values. Non-trivial = expression mixes str and HTML operands / tree has "
+                "inside script, plus chains of 7..300 operands in three groupings and operands of 300 / 5000 / 70000 "
+                "characters; (2) random trees with HTML(), _repr_html_ objects and script/style text in every child "
+                "position and HTML() attribute values, plus trees with 7..300 children / same-kind siblings / "
+                "attributes, nesting depth 7..70 and strings of 300 / 5000 / 70000 characters (trusted content last / "
+                "at the bottom / in the tail); (3) API programs: the same kinds of trees (also with sums, head_content, "
+                "dependencies, tagifiable and tagifiable+self-rendering objects, JSX siblings, merged attribute values) "
+                "built through every public construction route and observed through every public rendering route with "
+                "non-default arguments. Non-trivial = expression mixes str and HTML operands / tree has "
                 "a raw leaf containing a metacharacter; distinct = canonical input.")
-    ctx.assumptions = ["UserString methods other than + (join, format, %) are outside the statement and not checked"]
+    ctx.assumptions = ["UserString methods other than + (join, format, %) are outside the statement and not checked",
+                       "API programs judge each route against itself run on the same tree with every trusted / plain string "
+                       "replaced by an inert alphanumeric token: the statement (byte for byte, in every position, on every "
+                       "path) makes the output a function of the tree shape into which the strings are substituted; "
+                       "JSX components are opaque siblings (their own serialisation is C20's subject)"]
     ctx.proof()
 
     # ---- concatenation algebra -------------------------------------------------------
@@ -83,6 +247,7 @@ def run(ctx: Ctx) -> None:
         ops = [rng.choice([0, 1, 2]) for _ in range(count_ops(e))]
         exprs.append((e, ops))
     exprs.append(([1, [0, 0, "&"], [1, [0, 1, "&"], [0, 0, "<"]]], [0, 0]))
+    exprs += sized_exprs(rng)
 
     def impl(c):
         e, ops = c
@@ -133,9 +298,12 @@ def run(ctx: Ctx) -> None:
                  kind=lambda c: f"{min(len(expr_leaves(c[0])), 9)} operands")
 
     # ---- verbatim emission in trees ----------------------------------------------------
+    from .C02 import text_to_html
     cases = []
     for _ in range(ctx.budget(2500, 40000)):
         d = trees.rand_tree(rng, rng.choice([1, 2, 3, 4]), leaves="THHRRM", names="bivsssckk")
+        cases.append((d, rng.randrange(0, 4), rng.choice(["\n", "\r\n", "", " "])))
+    for d in sized_trees(rng):
         cases.append((d, rng.randrange(0, 4), rng.choice(["\n", "\r\n", "", " "])))
 
     def raw_leaves(d, under_noesc=False, acc=None):
@@ -174,8 +342,12 @@ def run(ctx: Ctx) -> None:
         for s in order:
             j = out[1].find(s, pos)
             if j < 0:
-                return f"trusted markup {s!r} is not emitted verbatim (in document order)"
+                return f"trusted markup {s[-60:]!r} is not emitted verbatim (in document order)"
             pos = j + len(s)
+        # plain text escaped exactly once: the same tree with each text child given as HTML(its escaped form)
+        want = safe_call(lambda: build(text_to_html(d)).get_html_string(c[1], c[2]))
+        if out != want:
+            return "plain text is not escaped exactly once next to trusted markup"
         return None
 
     differential(ctx, "Tag.get_html_string (trusted markup)", cases,
@@ -185,6 +357,7 @@ def run(ctx: Ctx) -> None:
                  nontrivial=lambda c: any(any(ch in s for ch in "&<>\"'") for s in raw_leaves(c[0])),
                  kind=lambda c: "tree")
     list_level(ctx)
+    api_programs(ctx)
 
 
 def list_level(ctx: Ctx) -> None:
@@ -197,6 +370,12 @@ def list_level(ctx: Ctx) -> None:
         items = [trees.rand_child(rng, rng.choice([0, 1, 2]), leaves="TTHHRM", names="bivssck")
                  for _ in range(rng.choice([1, 2, 3, 4]))]
         lcases.append((items, rng.randrange(0, 3), rng.choice(["\n", "", "\r\n"]), rng.random() < 0.5))
+    # long top-level lists, the interesting items last
+    for j, n in enumerate(SIZES):
+        sp = rng.choice(SPICE)
+        items = [[("T", "t%d<" % i), ("H", "<u>%d</u>" % i), ("R", "r&%d" % i), ("G", "b", False, [], [("T", "&")])][(i + j) % 4]
+                 for i in range(n - 2)] + [("T", sp), [("H", sp), ("R", sp)][j % 2]]
+        lcases.append((items, j % 3, ["\n", "", "\r\n"][j % 3], j % 2 == 0))
 
     def impl(c):
         return safe_call(lambda: TagList(*[build(d) for d in c[0]]).get_html_string(c[1], c[2], add_ws=c[3]))
@@ -211,6 +390,748 @@ def list_level(ctx: Ctx) -> None:
                  to_sx=lambda c: [3, [to_sx(d) for d in c[0]], c[1], S(c[2]), 1 if c[3] else 0, 1],
                  impl=impl, decode=lambda m: res_decode(m, unS), oracle=oracle,
                  nontrivial=lambda c: any(d[0] in "TH" for d in c[0]), kind=lambda c: "list")
+
+
+# =========================================================================================
+# API programs: every construction route x every rendering route, judged by substitution
+# =========================================================================================
+# Program descriptions (lists, JSON-able):
+#   ["T", s] ["H", s] ["R", s]             plain text / HTML(s) / object whose _repr_html_() is s
+#   ["E", [[kind, s], ...], [how, ...]]    HTML built by + / operator.add / += from the operands (kind 0 plain, 1 HTML)
+#   ["M", None | {name, version, head}]    MetadataNode / HTMLDependency whose head= markup is s
+#   ["K", [desc, ...]]                     head_content(*children)
+#   ["J"]                                  a JSX component with fixed content (opaque sibling)
+#   ["C", self_html | None, [desc, ...], as_list]   object with tagify() (and, with self_html, also _repr_html_())
+#   ["G", name, ws, [[key, [[m, v], ...]], ...], [desc, ...]]   Tag; several values of one key are merged by the library
+#
+# The statement says that trusted strings go into the output byte for byte and plain text escaped exactly once, in
+# every position and on every path.  So for ANY way of building the tree and ANY way of rendering it, the output must
+# be the output of the SAME program run with every such string replaced by an inert token (alphanumeric: nothing to
+# escape), with each token then replaced by the string's due form: the string itself (trusted) or its per-character
+# escaped form (plain text child).  Both runs take the same construction and rendering route (drawn from a PRNG
+# seeded by the case, never from the content).  Plain attribute values are the same in both runs (their form is
+# C03's subject).  In addition, in the token run every token that the route must show has to be there, children in
+# document order.
+TOKEN_RE = re.compile(r"TOK(\d+)KOT")
+HASHNAME_RE = re.compile(r"headcontent_[0-9a-f]{40}")
+PROGRAMS = "API programs (construction route x rendering route)"
+PLACEHOLDERS = ["<!--HEAD.*(PLACE)+[HOLDER]$-->", "{{ head|^\\d+? }}", "<meta name=\"deps\" content=\"a|b\\1\">"]
+NOESC = ("script", "style")
+KW_NAMES = {"class": "class_", "style": "style", "id": "id", "title": "title", "href": "href", "lang": "lang",
+            "data-x": "data_x", "onclick": "onclick", "viewBox": "viewBox"}
+CHILD_MODES = ["ctor", "ctor", "nested", "deepnest", "append", "append_pairs", "extend", "insert", "iadd",
+               "children_append", "taglist_add", "with", "with", "fn"]
+ATTR_MODES = ["dicts", "dict1", "kwargs", "other_attrs", "consolidate", "setitem", "update", "helpers",
+              "helpers_consolidate"]
+LIST_MODES = ["ctor", "add", "radd", "iadd", "append", "insert", "extend"]
+ATTR_CLASS = {"body": "attr", "head": "head", "opt": "opt", "attr": "attr"}
+POSTS = ["none", "none", "none", "copy", "deepcopy", "tagify", "eq", "twice", "entered", "noise"]
+
+
+SAVE = {"dir": None, "n": 0}
+ROUTE_NAMES = [n for n, _ in trees.render_routes(None)]
+
+
+def _sink(value) -> None:
+    return None
+
+
+class Sub:
+    """the strings of a run: themselves (real run) or tokens (reference run).  One token per due output form, so
+    that two strings emitted alike get the same token (content-keyed behaviour such as the name of a head_content
+    item is then the same in both runs)"""
+
+    def __init__(self, tokens: bool):
+        self.tokens = tokens
+        self.ids: dict = {}
+        self.back: list = []
+
+    def tok(self, emitted: str) -> str:
+        i = self.ids.get(emitted)
+        if i is None:
+            i = self.ids[emitted] = len(self.back)
+            self.back.append(emitted)
+        return f"TOK{i}KOT"
+
+    def raw(self, s: str) -> str:
+        return self.tok(s) if self.tokens else s
+
+    def esc(self, s: str) -> str:
+        return self.tok(spec_escape(s)) if self.tokens else s
+
+    def expand(self, out: str) -> str:
+        return TOKEN_RE.sub(lambda m: self.back[int(m.group(1))], out)
+
+
+class Builder:
+    def __init__(self, tokens: bool, case: dict):
+        self.sub = Sub(tokens)
+        self.case = case
+        self.prng = random.Random(case["seed"])
+        self.force = list(case.get("force") or [])
+        self.seq: list = []       # tokens of children that every rendering shows, in document order
+        self.head: list = []      # tokens shown by document routes only (head_content / dependency head markup)
+        self.attr: list = []      # tokens of HTML() attribute values
+        self.objs: list = []      # (caller-supplied object, its text)
+        self.how: list = []       # routes taken (for the report)
+        self.memo: dict = {}
+        self.hmemo: dict = {}
+        self.in_with = 0
+        self.in_expansion = 0
+        self.obs_notes = None
+        self.obs_exclude: list = []
+        self.root_attr_tokens: dict = {}     # attribute name -> tokens, of the root tag when that is an <html> tag
+
+    # ---- strings -------------------------------------------------------------------------
+    def note(self, t: str, cls: str) -> None:
+        if self.sub.tokens:
+            if self.obs_notes is not None:      # strings supplied while rendering (document attributes ...): this route only
+                if cls in ("head", "attr"):
+                    self.obs_notes.append(t)
+                return
+            {"body": self.seq, "head": self.head, "attr": self.attr}.get(cls, []).append(t)
+
+    def raw(self, s, cls):
+        t = self.sub.raw(s)
+        self.note(t, cls)
+        return t
+
+    def esc(self, s, cls):
+        t = self.sub.esc(s)
+        self.note(t, cls)
+        return t
+
+    def html(self, text: str):
+        """an HTML() for the text: HTML / a user subclass / a copy / HTML(HTML(..)); sometimes THE SAME object as used
+        before for this text (as a child, an attribute value, an operand): nothing may modify it"""
+        v = self.prng.randrange(8)
+        share = self.prng.random() < 0.35
+        if share and text in self.hmemo:
+            return self.hmemo[text]
+        o = (trees.HtmlSub(text) if v == 0 else _copy.copy(HTML(text)) if v == 1 else _copy.deepcopy(HTML(text)) if v == 2
+             else HTML(HTML(text)) if v == 3 else HTML(text))
+        self.objs.append((o, text))
+        self.hmemo.setdefault(text, o)
+        return o
+
+    # ---- nodes ---------------------------------------------------------------------------
+    def build(self, d, noesc=False, cls="body"):
+        k = d[0]
+        if k == "T":
+            v = self.prng.randrange(5)
+            s = d[1]
+            txt = self.raw(s, cls) if noesc else self.esc(s, cls)
+            if not self.sub.tokens and v == 0 and s in trees.NUMERIC and str(trees.NUMERIC[s]) == s and not self.in_expansion:
+                return trees.NUMERIC[s]          # the number itself (stored as its str() text)
+            return trees.StrSub(txt) if v == 1 else txt
+        share = self.prng.random() < 0.5
+        key = None
+        if k in "GHR" and self.in_with == 0:
+            key = canon([d, noesc, cls])
+            if share and key in self.memo:
+                return self.memo[key]            # one object at two places
+        if k == "H":
+            o = self.html(self.raw(d[1], cls))
+        elif k == "R":
+            v = self.prng.randrange(4)
+            txt = self.raw(d[1], cls)
+            o = trees.ReprObjWs(txt) if v == 0 else trees.ReprObjHtml(txt) if (v == 1 and trees.REPR_RETURNS_HTML) else ReprObj(txt)
+            self.objs.append((o, txt))
+        elif k == "E":
+            o = self.build_sum(d, cls)
+        elif k == "M":
+            if d[1] is None:
+                return htmltools.MetadataNode()
+            p = dict(d[1])
+            if p.get("head") is not None:
+                # (whether THIS dependency's markup shows is decided by name / version resolution: C12's subject)
+                p["head"] = self.raw(p["head"], "opt")
+            return htmltools.HTMLDependency(**p)
+        elif k == "K":
+            return htmltools.head_content(*[self.build(x, False, "head" if cls != "opt" else "opt") for x in d[1]])
+        elif k == "J":
+            from htmltools._jsx import jsx_tag_create
+            return jsx_tag_create("Widget")("static text", Tag("b", "bold"), size=3, label="plain")
+        elif k == "C":
+            _, sh, exp, as_list = d[:4]
+            inner = "opt" if sh is not None else cls      # tagifiable AND self-rendering: which of the two shows depends on the route
+            self.in_expansion += 1         # (what tagify() returns must be nodes: no raw numbers there)
+            try:
+                exp_b = [self.build(x, noesc, inner) for x in exp]
+            finally:
+                self.in_expansion -= 1
+            if sh is None:
+                return trees.CustomObj(exp_b, as_list)
+            return trees.CustomReprObj(exp_b, as_list, self.raw(sh, "opt"))
+        elif k == "G":
+            o = self.build_tag(d, cls)
+        else:
+            raise ValueError(d)
+        if key is not None:
+            self.memo.setdefault(key, o)
+        return o
+
+    def build_sum(self, d, cls):
+        """an HTML() made by concatenation: each plain operand escaped exactly once, HTML operands never -- whatever
+        the parent (the sum is trusted markup)"""
+        _, parts, hows = d[:3]
+        ops = []
+        for kind, s in parts:
+            ops.append(self.html(self.raw(s, cls)) if kind == 1 else self.esc(s, cls))
+        acc = ops[0]
+        for i, o in enumerate(ops[1:]):
+            how = hows[i % len(hows)] if hows else 0
+            if how == 0:
+                acc = acc + o
+            elif how == 1:
+                acc = operator.add(acc, o)
+            else:
+                acc += o
+        if not isinstance(acc, HTML):
+            # plain operands only so far: the statement's subject is a sum involving HTML()
+            acc = HTML("") + acc if self.prng.random() < 0.5 else acc + HTML("")
+        return acc
+
+    def attr_values(self, attrs, cls):
+        """[(key, [(m, text)])]: HTML values tokenised, plain values as they are"""
+        out = []
+        for key, vals in attrs:
+            out.append((key, [(m, self.raw(v, ATTR_CLASS[cls]) if m == "H" else v) for m, v in vals]))
+        return out
+
+    def val(self, m, text, suffix=""):
+        return self.html(text + suffix) if m == "H" else text + suffix
+
+    def new_tag(self, name, ws, av, amode, kb, fn=None):
+        """the tag with its attributes (attribute route amode) and constructor children kb"""
+        mk = fn if fn is not None else (lambda *a, **kw: Tag(name, *a, **kw))
+        dicts = [{key: self.val(m, t)} for key, vals in av for m, t in vals]
+        if amode in ("dicts", "dict1", "kwargs"):
+            if amode == "dict1":
+                first = {key: self.val(*vals[0]) for key, vals in av}
+                dicts = ([first] if first else []) + [{key: self.val(m, t)} for key, vals in av for m, t in vals[1:]]
+            kw = {}
+            if amode == "kwargs":
+                dicts = []
+                for key, vals in av:
+                    for i, (m, t) in enumerate(vals):
+                        if i == 0 and key in KW_NAMES:
+                            kw[KW_NAMES[key]] = self.val(m, t)
+                        else:
+                            dicts.append({key: self.val(m, t)})
+            return mk(*dicts, *kb, _add_ws=ws, **kw)
+        if amode == "other_attrs":
+            src = Tag("span", *dicts)
+            return mk(src.attrs, *kb, _add_ws=ws)
+        if amode == "consolidate":
+            a, k2 = htmltools.consolidate_attrs(*dicts, *kb)
+            return mk(a, *k2, _add_ws=ws)
+        if amode == "helpers_consolidate":
+            t0 = Tag("div")
+            self.apply_attrs(t0, av, "helpers")
+            a, k2 = htmltools.consolidate_attrs(t0.attrs, *kb)
+            return mk(a, *k2, _add_ws=ws)
+        t = mk(*kb, _add_ws=ws)
+        self.apply_attrs(t, av, amode)
+        return t
+
+    def apply_attrs(self, t, av, amode):
+        for key, vals in av:
+            for i, (m, text) in enumerate(vals):
+                pre = self.prng.random() < 0.4
+                if amode == "helpers" and key == "class":
+                    t.add_class(self.val(m, text), prepend=pre)
+                elif amode == "helpers" and key == "style":
+                    t.add_style(self.val(m, text, ";"), prepend=pre)
+                elif i == 0:
+                    if amode == "update":
+                        t.attrs.update({key: self.val(m, text)})
+                    else:
+                        t.attrs[key] = self.val(m, text)
+                else:
+                    t.attrs.update({key: t.attrs.get(key)}, {key: self.val(m, text)})
+
+    def build_tag(self, d, cls, auto_append=False):
+        _, name, ws, attrs, kids = d[:5]
+        raw = name in NOESC
+        mode = self.force.pop(0) if self.force else self.prng.choice(CHILD_MODES)
+        amode = self.prng.choice(ATTR_MODES)
+        if auto_append:
+            mode = "with"
+        av = self.attr_values(attrs, cls)
+        if self.sub.tokens and name == "html" and d is self.case["tree"]:
+            self.root_attr_tokens = {key: [t for m, t in vals if m == "H"] for key, vals in av}
+        fn = None
+        if mode == "fn":
+            fn = getattr(htmltools, name, None) if self.prng.random() < 0.5 else None
+            if not callable(fn) or isinstance(fn, type):
+                fn = getattr(htmltools.tags, name, None)
+            if not callable(fn) or isinstance(fn, type):
+                fn, mode = None, "ctor"
+        self.how.append(f"<{name}>: children via {mode}, attributes via {amode}")
+        if mode == "with":
+            t = self.new_tag(name, ws, av, amode, [])
+            saved = sys.displayhook
+            if not auto_append:
+                sys.displayhook = _sink        # on leaving the block the tag is displayed: to nobody
+            self.in_with += 1
+            try:
+                with t:
+                    for kd in kids:
+                        if kd[0] == "G" and self.prng.random() < 0.5:
+                            self.build_tag(kd, cls, auto_append=True)     # a nested with-block: displays itself on exit
+                        else:
+                            sys.displayhook(self.build(kd, raw, cls))
+            finally:
+                self.in_with -= 1
+                sys.displayhook = saved
+            return t
+        kb = [self.build(kd, raw, cls) for kd in kids]
+        if mode in ("ctor", "fn"):
+            return self.new_tag(name, ws, av, amode, kb, fn)
+        if mode == "nested":
+            return self.new_tag(name, ws, av, amode, [[kb[:1], (kb[1:],)], None])
+        if mode == "deepnest":
+            x = kb
+            depth = self.prng.choice(DEPTHS)
+            for i in range(self.case.get("nest_depth") or depth):
+                x = [x] if i % 3 == 0 else (x,) if i % 3 == 1 else [None, TagList(x)]
+            return self.new_tag(name, ws, av, amode, [x])
+        t = self.new_tag(name, ws, av, amode, [])
+        if mode == "append":
+            for k in kb:
+                t.append(k)
+        elif mode == "append_pairs":
+            for j in range(0, len(kb), 2):
+                t.append(*kb[j:j + 2])
+        elif mode == "extend":
+            t.extend(kb)
+        elif mode == "insert":
+            for k in reversed(kb[:1] + kb[2:]):
+                t.insert(0, k)
+            if len(kb) > 1:
+                t.insert(1, kb[1])             # in the middle
+        elif mode == "iadd":
+            for k in kb:
+                t.children += [k]
+        elif mode == "children_append":
+            for k in kb:
+                t.children.append(k)
+        elif mode == "taglist_add":
+            if kb:
+                rest = TagList() + kb[1:-1] if len(kb) > 1 else TagList()
+                if len(kb) > 1:
+                    rest = rest + kb[-1] if isinstance(kb[-1], str) else rest + [kb[-1]]      # TagList + str: one text item
+                t.children = kb[0] + rest if isinstance(kb[0], str) else [kb[0]] + rest         # str + TagList (reflected)
+        else:
+            raise ValueError(mode)
+        return t
+
+    def build_top(self):
+        case = self.case
+        if case["top"] == "tag":
+            x = self.build(case["tree"])
+        else:
+            items = [self.build(d) for d in case["tree"]]
+            mode = self.prng.choice(LIST_MODES)
+            self.how.append(f"top-level TagList via {mode}")
+            if mode == "ctor":
+                x = TagList(*items)
+            elif mode == "add":
+                x = TagList(*items[:1]) + items[1:-1] if len(items) > 1 else TagList(*items)
+                if len(items) > 1:
+                    x = x + items[-1] if isinstance(items[-1], str) else x + [items[-1]]
+            elif mode == "radd":
+                x = (items[0] + TagList(*items[1:]) if isinstance(items[0], str) else items[:1] + TagList(*items[1:])) if items else TagList()
+            elif mode == "iadd":
+                x = TagList()
+                x += items
+            elif mode == "append":
+                x = TagList()
+                x.append(*items) if items else None
+            elif mode == "insert":
+                x = TagList()
+                for k in reversed(items[:1] + items[2:]):
+                    x.insert(0, k)
+                if len(items) > 1:
+                    x.insert(1, items[1])
+            else:
+                x = TagList()
+                x.extend(items)
+        post = case["post"]
+        if post == "copy":
+            x = _copy.copy(x)
+        elif post == "deepcopy":
+            x = _copy.deepcopy(x)
+        elif post == "tagify":
+            x = x.tagify()
+        elif post == "eq":
+            _ = (x == _copy.copy(x))           # an operation only: the statement says nothing about its value
+        elif post == "twice":
+            x = TagList(x, Tag("section", Tag("span", x, _add_ws=False))) if self.prng.random() < 0.5 else Tag("div", x, x)
+        elif post == "entered" and isinstance(x, Tag) and x.prev_displayhook is None:
+            saved = sys.displayhook
+            sys.displayhook = _sink
+            try:
+                with x:
+                    pass
+            finally:
+                sys.displayhook = saved
+            y = _copy.copy(x)
+            _ = (x == y)
+            x = y if self.prng.random() < 0.5 else x
+        elif post == "noise":
+            x.get_dependencies(dedup=False)
+            x.get_dependencies()
+            _ = (x == x)
+            repr(x)
+        return x
+
+    # ---- rendering routes ------------------------------------------------------------------
+    def doc_kw(self, which="doc_attrs"):
+        kw = {}
+        for key, vals in self.attr_values(self.case.get(which) or [], "attr"):
+            m, t = vals[0]
+            kw[KW_NAMES[key]] = self.val(m, t)
+        return kw
+
+    def document(self, x, variant):
+        kw = self.doc_kw()
+        if variant in ("plain", "append", "copy"):
+            # content that is itself a lone <html> tag: the document's attributes REPLACE the tag's own ones of the
+            # same name (C11 / C15), so those need not show
+            for k in kw:
+                self.obs_exclude += self.root_attr_tokens.get({v: a for a, v in KW_NAMES.items()}[k], [])
+        if variant == "plain":
+            return HTMLDocument(x, **kw)
+        if variant == "append":
+            doc = HTMLDocument(**kw)
+            doc.append(x)
+            return doc
+        if variant == "copy":
+            return _copy.copy(HTMLDocument(x, **kw))
+        if variant == "body":
+            return HTMLDocument(Tag("body", x, {"data-b": "1"}), **kw)
+        # own attributes whose name the document's attributes also use are replaced: their tokens need not show
+        keep = list(self.obs_notes) if self.obs_notes is not None else None
+        own = self.doc_kw("own_attrs")
+        if keep is not None:
+            self.obs_notes[:] = keep + [str(v) for k, v in own.items() if isinstance(v, HTML) and k not in kw]
+        if variant == "html":
+            return HTMLDocument(Tag("html", Tag("head", Tag("title", "t")), Tag("body", x), **own), **kw)
+        if variant == "html_nohead":
+            return HTMLDocument(Tag("html", Tag("body", x), **own), **kw)
+        raise ValueError(variant)
+
+    def observe(self, x, o):
+        what = o[0]
+        if what == "ghs":
+            if isinstance(x, TagList):
+                return x.get_html_string(o[1], o[2], add_ws=o[3])
+            return x.get_html_string(o[1], o[2])
+        if what == "tagify_ghs":
+            y = x.tagify()
+            if isinstance(y, TagList):
+                return y.get_html_string(o[1], o[2], add_ws=o[3])
+            return y.get_html_string(indent=o[1], eol=o[2])
+        if what == "route":
+            return trees.render_routes(x)[o[1]][1]()
+        if what == "doc":
+            return self.document(x, o[1]).render(lib_prefix=o[2], include_version=o[3])["html"]
+        if what == "save":
+            # one scratch directory per run (creating one per call is what costs time); a new file name per call
+            SAVE["n"] += 1
+            f = os.path.join(SAVE["dir"], "page%d.html" % SAVE["n"])
+            try:
+                if o[1] == "self":
+                    x.save_html(f, libdir=o[2], include_version=o[3])
+                else:
+                    self.document(x, o[1]).save_html(f, libdir=o[2], include_version=o[3])
+                with open(f, encoding="utf-8", newline="") as fh:
+                    return fh.read()
+            finally:
+                if os.path.exists(f):
+                    os.unlink(f)
+        if what == "text":
+            ph = PLACEHOLDERS[o[1]]
+            old = htmltools.html_dependency_render_mode
+            try:
+                htmltools.html_dependency_render_mode = "json"
+                s = str(x)
+            finally:
+                htmltools.html_dependency_render_mode = old
+            text = "<!DOCTYPE html>\n<html><head>" + ph + "</head><body>\n" + s + "\n<!-- " + ph + " --></body></html>"
+            extra = [htmltools.HTMLDependency("extra", "1.1", head=self.raw("<meta name='e' content='&<>'>", "head"))] if o[4] else None
+            return HTMLTextDocument(text, deps=extra, deps_replace_pattern=ph).render(lib_prefix=o[2], include_version=o[3])["html"]
+        raise ValueError(o)
+
+
+def rand_obs(rng, top: str) -> list:
+    r = rng.random()
+    lib = rng.choice(["lib", None, "a/b"])
+    incl = rng.random() < 0.5
+    if r < 0.22:
+        return ["ghs", rng.choice([0, 1, 2, 3, 5]), rng.choice(["\n", "\r\n", "", " ", "\t\n"]), rng.random() < 0.5]
+    if r < 0.34:
+        return ["tagify_ghs", rng.choice([0, 1, 2, 4]), rng.choice(["\n", "\r\n", "", "\n\n"]), rng.random() < 0.5]
+    if r < 0.56:
+        return ["route", rng.randrange(0, 7)]
+    if r < 0.78:
+        return ["doc", rng.choice(["plain", "append", "copy", "body", "html", "html", "html_nohead"]), lib, incl]
+    if r < 0.9:
+        return ["save", rng.choice(["self", "plain", "html", "body"]), lib, incl]
+    return ["text", rng.randrange(0, len(PLACEHOLDERS)), lib, incl, rng.random() < 0.3]
+
+
+def prog_of(d, rng):
+    """trees.py description -> program description (lists; attributes get value lists, sometimes merged values;
+    some leaves become sums)"""
+    k = d[0]
+    if k in "THR":
+        if k != "R" and rng.random() < 0.06:
+            e = rand_expr(rng, rng.choice([1, 2, 3]))
+            lv = expr_leaves(e)
+            return ["E", [[l[1], l[2]] for l in lv], [rng.choice([0, 1, 2]) for _ in lv]]
+        return [k, d[1]]
+    if k == "M":
+        return ["M", d[1]]
+    if k == "C":
+        return ["C", d[1], [prog_of(x, rng) for x in d[2]], d[3]]
+    _, name, ws, attrs, kids = d
+    av = []
+    for key, (m, v) in attrs:
+        vals = [[m, v]]
+        while rng.random() < 0.3:
+            vals.append(["H" if rng.random() < 0.5 else "S", trees.rand_text(rng, 6)])
+        av.append([key, vals])
+    return ["G", name, ws, av, [prog_of(x, rng) for x in kids]]
+
+
+def tag_nodes(p, acc=None):
+    acc = [] if acc is None else acc
+    if p[0] == "G":
+        acc.append(p)
+        for x in p[4]:
+            tag_nodes(x, acc)
+    return acc
+
+
+def doc_attr_list(rng) -> list:
+    keys = rng.sample(["class", "style", "lang", "data-x", "id", "title"], rng.choice([0, 1, 1, 2, 3]))
+    return [[k, [["H" if rng.random() < 0.5 else "S", trees.rand_text(rng, 6) if k != "lang" else "en"]]] for k in keys]
+
+
+def rand_program(rng) -> dict:
+    top = "tag" if rng.random() < 0.7 else "list"
+    kw = dict(leaves="TTHHHRRMD", names="bbiivsssckk", custom=True)
+    if top == "tag":
+        tree = prog_of(trees.rand_tree(rng, rng.choice([1, 2, 2, 3, 4]), **kw), rng)
+    else:
+        tree = [prog_of(trees.rand_child(rng, rng.choice([0, 1, 2]), **kw), rng) for _ in range(rng.choice([1, 2, 3, 4]))]
+    # two features together: head content / a JSX sibling somewhere inside (not inside script / style, whose
+    # children are text)
+    hosts = [g for t in ([tree] if top == "tag" else tree) for g in tag_nodes(t) if g[1] not in NOESC and g[1] not in trees.VOID_NAMES]
+    if hosts and rng.random() < 0.3:
+        hk = [prog_of(trees.rand_child(rng, rng.choice([0, 0, 1]), leaves="THHRD", names="bis"), rng) for _ in range(rng.choice([1, 2, 3]))]
+        h = rng.choice(hosts)
+        h[4].insert(rng.randrange(0, len(h[4]) + 1), ["K", hk])
+    if hosts and rng.random() < 0.08:
+        h = rng.choice(hosts)
+        h[4].insert(rng.randrange(0, len(h[4]) + 1), ["J"])
+    return {"top": top, "tree": tree, "seed": rng.randrange(1 << 30), "post": rng.choice(POSTS),
+            "doc_attrs": doc_attr_list(rng), "own_attrs": doc_attr_list(rng),
+            "obs": [rand_obs(rng, top) for _ in range(3)]}
+
+
+def sized_programs(rng) -> list:
+    """sizes around the powers of two for every countable thing, through forced construction routes"""
+    out = []
+
+    def case(tree, force, obs=None, top="tag", post="none", **more):
+        return {"top": top, "tree": tree, "seed": rng.randrange(1 << 30), "post": post, "force": force,
+                "doc_attrs": doc_attr_list(rng), "own_attrs": doc_attr_list(rng),
+                "obs": obs or [rand_obs(rng, top) for _ in range(2)], **more}
+    modes = ["with", "append", "ctor", "deepnest", "insert", "extend", "iadd", "append_pairs", "taglist_add", "children_append", "nested", "fn"]
+    for j, n in enumerate(SIZES):
+        sp = rng.choice(SPICE)
+        # children / operations in a history: n children through one route; the trusted ones last
+        kids = [[["T", "t%d<" % i], ["H", "<u>%d</u>" % i], ["R", "r&%d" % i]][(i + j) % 3] for i in range(n - 2)] + [["R", sp], ["H", sp]]
+        out.append(case(["G", "div", True, [], kids], [modes[j % len(modes)]]))
+        if n in (65, 129, 257, 300):
+            for mo in modes:               # every route beyond every threshold
+                if mo != modes[j % len(modes)]:
+                    out.append(case(["G", "div", mo != "fn", [], kids], [mo], obs=[rand_obs(rng, "tag")]))
+        out.append(case(["G", ["span", "script", "style"][j % 3], j % 2 == 0, [], [[["R", "H", "T"][(j // 3) % 3], "<%d&>" % i] for i in range(n - 1)] + [["H", sp]]],
+                        [modes[(j + 1) % 3]]))
+        # attributes; values merged into one attribute (class tokens), the trusted one last or first
+        attrs = [["data-a%d" % i, [["H" if (i + j) % 4 == 0 else "S", "v<%d>&" % i]]] for i in range(n - 1)] + [["data-last", [["H", sp]]]]
+        out.append(case(["G", "div", True, attrs, [["T", "x"]]], ["ctor"]))
+        vals = [["S", "c%d" % i] for i in range(n - 1)]
+        vals.insert(len(vals) if j % 2 else 0, ["H", sp])
+        out.append(case(["G", "p", True, [[["class", "style", "title"][j % 3], vals]], [["H", sp]]], ["ctor"]))
+        # a sum of n operands as a child and as an attribute value
+        parts = [[1 if (i + j) % 3 == 0 else 0, "o%d&" % i] for i in range(n - 1)] + [[j % 2, sp]]
+        out.append(case(["G", "div", False, [["title", [["H", "k"]]]], [["T", "<"], ["E", parts, [0, 1, 2, 2, 0]]]], ["ctor"]))
+        # a top-level list of n items
+        out.append(case(kids, [], top="list"))
+    for j, n in enumerate(DEPTHS):
+        sp = rng.choice(SPICE)
+        d = [["H", sp], ["R", sp], ["G", "style", True, [], [["T", sp], ["T", sp]]], ["G", "i", False, [["title", [["H", sp]]]], []]][j % 4]
+        for i in range(n):
+            name, ws = [("div", True), ("span", False), ("section", True), ("b", False)][(i + j) % 4]
+            d = ["G", name, ws, [], [d] if (i + j) % 3 else [["T", "&"], d, ["H", "<hr>"]]]
+        # the whole chain through nested with-blocks / through mixed routes
+        out.append(case(d, ["with"] * (n + 1) if j % 2 == 0 else []))
+        # tagifiable objects nested n deep, the trusted leaf at the bottom
+        c = ["H", sp]
+        for i in range(n):
+            c = ["C", None, [c], i % 2 == 0] if i % 2 == 0 else ["G", "div", True, [], [c]]
+        out.append(case(["G", "div", True, [], [c]], [], obs=[["tagify_ghs", 1, "\n", True], ["route", 2], ["doc", "html", None, False]]))
+    for j, n in enumerate(DEPTHS):
+        # lists / tuples / TagLists nested n deep around the children
+        out.append(case(["G", "div", True, [], [["T", "a<"], ["R", rng.choice(SPICE)], ["H", rng.choice(SPICE)]]], ["deepnest"], nest_depth=n))
+    for n in LENGTHS:
+        sp = rng.choice(SPICE)
+        s = tail_string(n, sp)
+        # long values merged into one attribute, through the helpers
+        out.append(case(["G", "div", True, [["class", [["S", "a"], ["H", s], ["S", "b<"]]], ["style", [["H", s], ["H", "k:v"]]]], [["H", sp]]], ["ctor"]))
+        for j, sp in enumerate(SPICE[:4]):
+            s = tail_string(n, sp)
+            kid = [["H", s], ["R", s], ["T", s], ["E", [[1, "<i>"], [0, s], [1, s]], [0, 2]]][j]
+            tree = ["G", "div", True, [["title", [["H", s]]]] if j == 0 else [], [["T", "a<"], kid, ["G", "script", True, [], [["T", s], ["T", "&"]]] if j == 1 else ["M", None]]]
+            if j == 2:
+                tree[4].append(["K", [["H", s]]])
+            out.append(case(tree, [["with", "ctor", "append", "fn"][j]],
+                            obs=[["ghs", 1, "\n", True], ["doc", ["html", "plain", "body", "append"][j], [None, "lib", "a/b", "lib"][j], j % 2 == 0],
+                                 ["save", ["plain", "self", "html", "self"][j], [None, "lib", "x/y", None][j], j % 2 == 1], ["text", j % 3, "lib", True, j == 0]]))
+    return out
+
+
+def required_tokens(b: Builder, o, obs_notes: list):
+    """(ordered child tokens, unordered tokens) that the route must show: children and attribute values always; what
+    goes into <head> (head_content) on document routes; strings handed to the route itself (document attributes)"""
+    unordered = list(b.attr) + list(obs_notes[0])
+    if o[0] in ("doc", "save", "text"):
+        unordered += b.head
+    return b.seq, [t for t in unordered if t not in obs_notes[1]]
+
+
+def is_subsequence(need: list, have: list) -> str | None:
+    it = iter(have)
+    for t in need:
+        for h in it:
+            if h == t:
+                break
+        else:
+            return t
+    return None
+
+
+def run_program(case: dict, tokens: bool):
+    b = Builder(tokens, case)
+    r = safe_call(b.build_top)
+    if r[0] != "ok":
+        return b, None, r, [r for _ in case["obs"]], r
+    x = r[1]
+    base0 = safe_call(lambda: x.tagify().get_html_string())
+    outs = []
+    b.notes_per_obs = []
+    for o in case["obs"]:
+        b.obs_notes, b.obs_exclude = [], []
+        out = safe_call(lambda: b.observe(x, o))
+        if out[0] == "ok":
+            out = ("ok", HASHNAME_RE.sub("headcontent_#", out[1]))
+        outs.append(out)
+        b.notes_per_obs.append((b.obs_notes, b.obs_exclude))
+    b.obs_notes = None
+    base1 = safe_call(lambda: x.tagify().get_html_string())
+    return b, x, base0, outs, base1
+
+
+def clip(s, n=1500):
+    if isinstance(s, tuple) and len(s) == 2 and isinstance(s[1], str):
+        s = s[1]
+    if isinstance(s, str) and len(s) > n:
+        return s[:n // 2] + f" ...[{len(s) - n} characters]... " + s[-n // 2:]
+    return s
+
+
+def first_diff(a: str, b: str) -> dict:
+    i = 0
+    n = min(len(a), len(b))
+    while i < n and a[i] == b[i]:
+        i += 1
+    return {"at": i, "impl": a[max(0, i - 60):i + 120], "expected": b[max(0, i - 60):i + 120]}
+
+
+def api_programs(ctx: Ctx) -> None:
+    rng = ctx.rng
+    progs = [rand_program(rng) for _ in range(ctx.budget(900, 15000))]
+    progs += sized_programs(rng)
+    progs = ctx.select(PROGRAMS, progs)
+    saved_hook = sys.displayhook
+    with tempfile.TemporaryDirectory(prefix="c04-") as tmp:
+        SAVE["dir"], SAVE["n"] = tmp, 0
+        for case in progs:
+            try:
+                judge_program(ctx, case)
+            finally:
+                sys.displayhook = saved_hook
+                htmltools.html_dependency_render_mode = "invisible"
+    ctx.obligation(f"{PROGRAMS}: {len(progs)} programs, each route agrees with itself run on inert strings",
+                   not any(v["what"].startswith(PROGRAMS) for v in ctx.violations))
+
+
+def judge_program(ctx: Ctx, case: dict) -> None:
+    def report(msg, detail):
+        ctx.violation(f"{PROGRAMS}: {msg}", case, detail)
+
+    tb, tx, tbase0, touts, tbase1 = run_program(case, True)
+    rb, rx, rbase0, routs, rbase1 = run_program(case, False)
+    nontrivial = any(any(ch in s for ch in "&<>\"'") for s in tb.sub.back)
+    for j, (o, tout, rout) in enumerate(zip(case["obs"], touts, routs)):
+        ctx.count([case, o], nontrivial, "program: " + str(o[0]) + ("" if o[0] != "route" else " " + ROUTE_NAMES[o[1]]))
+        route = {"route": o, "construction": rb.how[:12]}
+        label = ROUTE_NAMES[o[1]] if o[0] == "route" else {"ghs": "get_html_string", "tagify_ghs": "tagify().get_html_string", "doc": "HTMLDocument.render",
+                                                            "save": "save_html", "text": "json mode + HTMLTextDocument"}[o[0]]
+        if tout[0] == "ok":
+            want = tb.sub.expand(tout[1])
+            if rout[0] != "ok":
+                report("a rendering route that works for inert strings raises / does not return for some markup strings",
+                       {**route, "impl_output": rout, "expected": clip(want)})
+            elif rout[1] != want:
+                report("trusted markup is not emitted byte for byte / plain text is not escaped exactly once "
+                       f"[route: {label}]", {**route, **first_diff(rout[1], want), "impl_output": clip(rout[1])})
+            have = TOKEN_RE.findall(tout[1])
+            have = [f"TOK{i}KOT" for i in have]
+            ordered, unordered = required_tokens(tb, o, tb.notes_per_obs[j] if tx is not None else ([], []))
+            miss = is_subsequence(ordered, have)
+            if miss is None:
+                hs = set(have)
+                miss = next((t for t in unordered if t not in hs), None)
+            if miss is not None:
+                report("trusted markup / text given as a child or attribute value does not appear in the output (children in "
+                       f"document order) [route: {label}]",
+                       {**route, "missing": tb.sub.back[int(miss[3:-3])][-200:], "impl_output": clip(rout)})
+        elif rout != tout:
+            report("a rendering route fails for inert strings but behaves differently for other markup strings",
+                   {**route, "impl_output": clip(rout), "with_inert_strings": tout})
+    # state: read-only routes must not change what the object renders; caller-supplied objects keep their text
+    for b, base0, base1 in ((tb, tbase0, tbase1), (rb, rbase0, rbase1)):
+        if base0 != base1:
+            report("rendering routes changed what the object renders afterwards", {"before": clip(base0), "after": clip(base1),
+                                                                                  "construction": b.how[:12]})
+        for obj, text in b.objs:
+            now = obj.data if isinstance(obj, HTML) else obj.s
+            if now != text or (isinstance(obj, HTML) and str(obj) != text):
+                report("a caller-supplied HTML() / self-rendering object was modified (it no longer renders verbatim where else "
+                       "it is used)", {"now": clip(now), "before": clip(text), "construction": b.how[:12]})
+                break
+    # a second, identically built object must not be influenced by the first
+    rb2, rx2, rbase2, _, _ = run_program({**case, "obs": []}, False)
+    if rbase2 != rbase0:
+        report("a second identically built object renders differently from the first (state shared between objects or calls)",
+               {"first": clip(rbase0), "second": clip(rbase2), "construction": rb.how[:12]})
 
 
 def replay(ctx: Ctx, path: str) -> None:
